@@ -167,12 +167,14 @@ def run_for_property(prop: str, repo: str, seed: int = 0, budget: int = 48, jobs
     cands = sorted(q for q in funcs if '.' in q and '<' not in q.split('.')[0] and not q.endswith('>') and 'core.<' not in q)
     rng = random.Random(seed * 7919 + sum(map(ord, prop)))
     rng.shuffle(cands)
+    # every function the rules looked at gets the all-locals alpha-renaming (up to a cap); the other edit kinds are sampled
+    sweep = [(prop, repo, q, 'renameall', rng.randrange(1 << 30), frozenset(base)) for q in cands[:int(os.environ.get('SFA_BENIGN_SWEEP', '96'))]]
     work = []
     for i, q in enumerate(cands):
-        for kind in ('rename', 'renameall', 'kwsort', 'pass'):
+        for kind in ('rename', 'kwsort', 'pass'):
             work.append((prop, repo, q, kind, rng.randrange(1 << 30), frozenset(base)))
     rng.shuffle(work)
-    work = work[:budget]
+    work = sweep + work[:budget]
     results = []
     if work:
         with concurrent.futures.ProcessPoolExecutor(max_workers=min(jobs, len(work))) as ex:
